@@ -5,6 +5,7 @@ package c02
 
 import (
 	"fmt"
+	"time"
 
 	"github.com/ozanh/ugo"
 
@@ -58,6 +59,23 @@ func runAll(c *fw.Ctx) {
 	c.Family("const", "const groups with iota, implicit repetition, blank, shadowed iota")
 	famConst(c, e)
 	c.Family("destructuring", "1-3 targets x RHS array length 0-3 / non-array x define/assign/selector targets")
+	famDestr(c, e)
+}
+
+// Corpus yields the source text of every program of the tier (no arguments needed).
+func Corpus(thorough bool, yield func(src string)) {
+	c := &fw.Ctx{Tier: "quick", NShards: 1, Deadline: time.Now().Add(time.Hour)}
+	if thorough {
+		c.Tier = "thorough"
+	}
+	e := func(body []gen.Stmt, nt bool) { yield(gen.Source(append([]gen.Stmt{glob}, body...))) }
+	famCall(c, e)
+	famTail(c, e)
+	famOrder(c, e)
+	famScope(c, e)
+	famClosure(c, e)
+	famLoop(c, e)
+	famConst(c, e)
 	famDestr(c, e)
 }
 
